@@ -30,6 +30,9 @@ type ConvCase struct {
 	Off   int    `json:"off,omitempty"`
 	Spare int    `json:"spare,omitempty"` // extra bytes of the backing array behind the value (sub / spare shapes)
 	Adds  []int  `json:"adds,omitempty"`  // append history on the StringToBinary result
+	// Lp: the content LOOKS length-prefixed / framed: its first bytes spell its own remaining length (Lp = 4: big-endian
+	// 32 bit, 2: 16 bit, 1: one byte, -4: little-endian 32 bit): it is content like any other
+	Lp int `json:"lp,omitempty"`
 }
 
 func dataPtr(b []byte) uintptr {
@@ -47,6 +50,18 @@ func runConvCase(raw json.RawMessage, w *TraceWriter) {
 	w.Ev("reset", "input", Raw(`{"c":-1,"o":0,"len":0}`))
 	// build the source: a string (for s2b) and a byte slice (for b2s) of the requested shape
 	backing := PatBytes(c.N%250, 0, c.N+c.Off+16+c.Spare)
+	if v := backing[c.Off:]; c.Lp != 0 && c.N > 4 {
+		switch c.Lp {
+		case 4:
+			binary.BigEndian.PutUint32(v, uint32(c.N-4))
+		case -4:
+			binary.LittleEndian.PutUint32(v, uint32(c.N-4))
+		case 2:
+			binary.BigEndian.PutUint16(v, uint16(c.N-2))
+		case 1:
+			v[0] = byte(c.N - 1)
+		}
+	}
 	big := string(backing) // immutable copy
 	var s string
 	var b []byte
@@ -203,7 +218,7 @@ func init() {
 var famConv = Register(&Family{Name: "conv", Spec: "Trace_MemViews", Cfg: "Trace_MemViews.cfg", Run: runConvCase, Sig: sigConv})
 
 func checkC20(c *Ctx) {
-	c.rule = "MC: all input shapes (whole string, substring of a larger string, empty) x conversion/append histories of 4 steps: no write lands in string memory when cap = len (and TLC finds the violation when the design keeps the backing array's capacity). TRACE: every shape (whole, substring, spare capacity, empty, nil) x lengths 0..5000 x append histories, and a grid of lengths (0..16 MiB, thorough 64 MiB, incl. 2^16 and 2^20 +-1) x spare capacities (0..1 MiB) of the backing array on the StringToBinary result; TLC checks len/cap/content/shared pointer and that appends never happen in place; strings converted from a caller's fixed-size scratch buffer are kept beyond the caller's frame and re-compared. GIANT (Go monitor): 2^31, 2^31+3, 2^32-1, 2^32, 2^32+5 bytes of a lazily mapped buffer converted in both directions (length, ends, shared memory). The giant sizes sweep 2^k +- 1, 1.5 x 2^k and 1.25 x 2^k + 7 for k = 25..32."
+	c.rule = "MC: all input shapes (whole string, substring of a larger string, empty) x conversion/append histories of 4 steps: no write lands in string memory when cap = len (and TLC finds the violation when the design keeps the backing array's capacity). TRACE: every shape (whole, substring, spare capacity, empty, nil) x lengths 0..5000 x append histories, and a grid of lengths (0..16 MiB, thorough 64 MiB, incl. 2^16 and 2^20 +-1) x spare capacities (0..1 MiB) of the backing array on the StringToBinary result; TLC checks len/cap/content/shared pointer and that appends never happen in place; strings converted from a caller's fixed-size scratch buffer are kept beyond the caller's frame and re-compared. GIANT (Go monitor): 2^31, 2^31+3, 2^32-1, 2^32, 2^32+5 bytes of a lazily mapped buffer converted in both directions (length, ends, shared memory). The giant sizes sweep 2^k +- 1, 1.5 x 2^k and 1.25 x 2^k + 7 for k = 25..32. Contents whose first bytes spell their own remaining length (32-bit big / little endian, 16 bit, one byte)."
 	c.MC("MC_MemViews.tla", "MC_MemViews.cfg", 4)
 	var cases []json.RawMessage
 	rng := rand.New(rand.NewSource(c.Seed + 20))
@@ -235,6 +250,13 @@ func checkC20(c *Ctx) {
 					continue
 				}
 				cases = append(cases, mustJSON(ConvCase{Shape: sh, N: n, Off: n % 3, Spare: sp, Adds: []int{1}}))
+			}
+		}
+	}
+	for _, lp := range []int{4, -4, 2, 1} { // contents that spell their own remaining length
+		for _, n := range []int{5, 6, 8, 9, 12, 16, 100, 255, 256, 260, 4100, 65540} {
+			for _, sh := range []string{"whole", "sub", "spare"} {
+				cases = append(cases, mustJSON(ConvCase{Shape: sh, N: n, Off: 3, Spare: 7, Lp: lp}))
 			}
 		}
 	}
@@ -994,7 +1016,7 @@ func init() {
 }
 
 func checkC16(c *Ctx) {
-	c.rule = "MC: span allocator regions are pairwise disjoint, in bounds and have cap = len over request runs that wrap the span (scaled span size), private allocation beyond the span size. TRACE: decode runs of strings/binaries with lengths from every span class (0, <128, 128..128KiB, larger) incl. long runs that wrap the 1 MiB span, buffer and stream readers (over an io.Reader source and over the input slice itself), both SetSpanCache settings; every result's memory region [addr, addr+cap) must be disjoint from the input and from every other result, results must be unchanged after the input is overwritten, after the stream reader is released with unread bytes and the pool's buffers are refilled by another user, after the recycled reader object decoded other data, and after every other result is appended to and modified, and values must be identical with the span cache on and off. MANY DISTINCT VALUES (Go monitor): 40000 distinct short values through every name / string returning API (ReadMessageBegin of both readers, UnmarshalFastMsg, ReadString, ReadBinary; span cache off and on), then unseen values must still be independent copies. Every byte-slice result is overwritten by its owner and the same input decoded again. HEADER MAPS (Go monitor): the keys and values of the maps ttheader.Decode / DecodeFromBytes return (unique keys, keys repeated across sections, the ACL section followed by a pair with its key) after the input is reused and the reader buffers are refilled."
+	c.rule = "MC: span allocator regions are pairwise disjoint, in bounds and have cap = len over request runs that wrap the span (scaled span size), private allocation beyond the span size. TRACE: decode runs of strings/binaries with lengths from every span class (0, <128, 128..128KiB, larger) incl. long runs that wrap the 1 MiB span, buffer and stream readers (over an io.Reader source and over the input slice itself), both SetSpanCache settings; every result's memory region [addr, addr+cap) must be disjoint from the input and from every other result, results must be unchanged after the input is overwritten, after the stream reader is released with unread bytes and the pool's buffers are refilled by another user, after the recycled reader object decoded other data, and after every other result is appended to and modified, and values must be identical with the span cache on and off. MANY DISTINCT VALUES (Go monitor): 40000 distinct short values through every name / string returning API (ReadMessageBegin of both readers, UnmarshalFastMsg, ReadString, ReadBinary; span cache off and on), then unseen values must still be independent copies. Every byte-slice result is overwritten by its owner and the same input decoded again. HEADER MAPS (Go monitor): the keys and values of the maps ttheader.Decode / DecodeFromBytes return (unique keys, keys repeated across sections, the ACL section followed by a pair with its key) after the input is reused and the reader buffers are refilled. STRUCT STRINGS (Go monitor): the strings inside Base / BaseResp / ApplicationException, unknown-field trees (Convert and GetUnknownFields) and method names of UnmarshalFastMsg after the input / holder is reused."
 	c.MC("MC_MemViews.tla", "MC_MemViews.cfg", 4)
 	var cases []json.RawMessage
 	rng := rand.New(rand.NewSource(c.Seed + 16))
